@@ -52,7 +52,7 @@ SCHEMA = {
     "print": [("args", REQ)],
     "class": [("name", REQ), ("super", 0), ("members", REQ)],
     "classexpr": [("name", ""), ("super", 0), ("members", REQ)],
-    "cmember": [("kind", REQ), ("static", False), ("computed", False), ("key", ""), ("k", 0), ("v", 0)],
+    "cmember": [("kind", REQ), ("static", False), ("computed", False), ("key", ""), ("k", 0), ("v", 0), ("synthetic", False)],
     "lit": [("val", REQ)], "ident": [("n", REQ)], "this": [], "newtarget": [],
     "array": [("elems", REQ)], "hole": [], "spread": [("e", REQ)],
     "object": [("props", REQ)],
@@ -128,6 +128,14 @@ def template(quasis, exprs): return N("template", quasis=list(quasis), exprs=lis
 def this(): return N("this")
 def yield_(e=0, delegate=False): return N("yield", e=e, delegate=delegate)
 def optchain(e): return N("optchain", e=e)
+
+def class_(name, members, super_=0): return N("class", name=name, super=super_, members=list(members))
+def classexpr(members, super_=0, name=""): return N("classexpr", name=name, super=super_, members=list(members))
+def cmethod(key, ps, body, static=False, kind="method", gen=False): return N("cmember", kind=kind, static=static, key=key, v=method(ps, body, gen=gen))
+def cfield(key, init=0, static=False): return N("cmember", kind="field", static=static, key=key, v=init)
+def ctor(ps, body): return N("cmember", kind="ctor", v=method(ps, body))
+def super_call(*args): return N("super_call", args=list(args))
+def super_member(key): return N("super_member", key=key)
 
 def decl(target, init=0): return N("decl", target=target if isinstance(target, dict) else ident(target), init=init)
 def var(name, init=0): return N("var", decls=[decl(name, init)])
@@ -213,6 +221,14 @@ def flatten(ast):
         t = n["t"]
         if t not in SCHEMA:
             raise ValueError("unknown node kind %r" % t)
+        if t in ("class", "classexpr") and not any(m["kind"] == "ctor" for m in n["members"]):
+            # 15.7.14 step 14: default constructors
+            if n.get("super"):
+                dm = method([param("args", rest=True)], [expr(N("super_call", args=[spread(ident("args"))]))])
+            else:
+                dm = method([], [])
+            n = dict(n)
+            n["members"] = list(n["members"]) + [N("cmember", kind="ctor", v=dm, synthetic=True)]
         known = {f for f, _ in SCHEMA[t]}
         extra = set(n) - known - {"t"}
         if extra:
@@ -252,6 +268,10 @@ def flatten(ast):
             out["bop"] = n["op"][:-1] if n["op"] not in ("=", "&&=", "||=", "??=") else ""
         return my
 
+    if ast.get("strict"):
+        # the "use strict" directive is an expression statement (its value can be the script's completion value)
+        ast = dict(ast)
+        ast["body"] = [expr(string("use strict"))] + list(ast["body"])
     rec(ast, False)
     return {"strict": bool(ast.get("strict", False)), "nodes": nodes}
 
@@ -408,8 +428,8 @@ def _class(n):
     parts = []
     for m in n["members"]:
         pre = "static " if m.get("static") else ""
-        k = _key(m)
         kind = m["kind"]
+        k = "" if kind == "ctor" else _key(m)
         if kind == "method":
             parts.append(pre + ("*" if m["v"].get("gen") else "") + k + _params(m["v"]["params"]) + " " + _body(m["v"]["body"]))
         elif kind in ("get", "set"):
@@ -417,7 +437,8 @@ def _class(n):
         elif kind == "field":
             parts.append(pre + k + (" = " + rx(m["v"]) if m.get("v") else "") + ";")
         elif kind == "ctor":
-            parts.append("constructor" + _params(m["v"]["params"]) + " " + _body(m["v"]["body"]))
+            if not m.get("synthetic"):
+                parts.append("constructor" + _params(m["v"]["params"]) + " " + _body(m["v"]["body"]))
         else:
             raise ValueError(kind)
     return s + " { " + " ".join(parts) + " }"
@@ -672,6 +693,1052 @@ def expect(programs, workers=4, timeout=1800, cfg="MCJsCore.cfg", keep=None):
     stats = {"states": res["distinct"], "transitions": res["states"], "wall": res["wall"], "cmd": res["cmd"],
              "oom": sum(1 for r in results if r["c"] == "OutOfModel")}
     return results, stats
+
+
+
+# ------------------------------------------------------------------------------------------- random programs
+# Seeded, closed, deterministic, always-terminating programs over the fragment JsCore.tla models.
+# Termination: loops run on dedicated counters that the body cannot name; a function may only call
+# functions/closures defined before it (no recursion); parameters are never called.
+PROFILES = {
+    # weights of statement kinds / expression kinds; a profile overrides entries of "base"
+    "base": {
+        "s.decl": 10, "s.assign": 8, "s.print": 9, "s.if": 6, "s.for": 4, "s.while": 2, "s.dowhile": 1, "s.block": 2,
+        "s.try": 4, "s.throw": 1, "s.fundecl": 4, "s.return": 3, "s.break": 2, "s.continue": 2, "s.labeled": 1,
+        "s.switch": 2, "s.expr": 4, "s.forin": 1, "s.forof": 2, "s.class": 0, "s.destruct": 2,
+        "e.lit": 12, "e.var": 14, "e.binary": 10, "e.unary": 3, "e.logical": 3, "e.cond": 2, "e.assign": 3, "e.update": 2,
+        "e.call": 5, "e.fn": 2, "e.arrow": 2, "e.object": 3, "e.array": 2, "e.member": 4, "e.typeof": 1, "e.template": 1,
+        "e.seq": 1, "e.new": 1, "e.coerce": 2, "e.optchain": 1, "e.spread": 1, "e.in": 1, "e.delete": 1, "e.gen": 0,
+        "p.tdz": 0.03, "p.undeclared": 0.01, "p.dupdecl": 0.01, "p.strict": 0.5, "p.default_param": 0.2, "p.rest_param": 0.08,
+        "max_depth": 4, "max_stmts": 6, "max_expr_depth": 3,
+    },
+    "c01": {},
+    # C04: binding placement / operand shortcuts
+    "c04": {"e.fn": 4, "e.arrow": 6, "e.assign": 6, "e.update": 5, "s.for": 7, "s.switch": 4, "p.default_param": 0.5, "p.tdz": 0.06},
+    # C05: optimizer: literal-heavy expressions, literal conditions
+    "c05": {"e.lit": 24, "e.binary": 18, "e.unary": 6, "e.coerce": 5, "s.if": 10, "e.cond": 5, "e.var": 8},
+    # small programs (C10 GC schedules)
+    "small": {"max_depth": 3, "max_stmts": 4, "e.object": 6, "e.array": 5, "e.fn": 4},
+}
+
+
+def profile_weights(profile):
+    w = dict(PROFILES["base"])
+    if isinstance(profile, str):
+        w.update(PROFILES.get(profile, {}))
+    elif isinstance(profile, dict):
+        w.update(profile)
+    return w
+
+
+class Gen:
+    ARITH = ["+", "-", "*", "%", "+", "-", "*", "&", "|", "^", "<<", ">>", ">>>", "/", "**"]
+    CMP = ["<", ">", "<=", ">=", "==", "!=", "===", "!=="]
+    KEYS = ["a", "b", "c", "x", "y"]
+
+    def __init__(self, rng, profile="c01"):
+        self.r = rng
+        self.w = profile_weights(profile)
+        self.n = 0
+        self.scopes = []          # list of dicts name -> {"kind", "callable": arity|None}
+        self.fn_depth = 0
+        self.loops = []           # labels of enclosing loops ("" for unlabelled)
+        self.labels = []          # labels of enclosing labelled blocks
+        self.in_switch = 0
+        self.pending_tdz = []     # per block: names to declare at the end of the block
+        self.strict = False
+
+    # ---- helpers
+    def fresh(self, prefix="v"):
+        self.n += 1
+        return "%s%d" % (prefix, self.n)
+
+    def pick(self, prefix):
+        items = [(k[len(prefix):], v) for k, v in self.w.items() if k.startswith(prefix) and v > 0]
+        tot = sum(v for _, v in items)
+        x = self.r.random() * tot
+        for k, v in items:
+            x -= v
+            if x <= 0:
+                return k
+        return items[-1][0]
+
+    def chance(self, key):
+        return self.r.random() < self.w[key]
+
+    def visible(self, pred=lambda i: True):
+        out = []
+        seen = set()
+        for sc in reversed(self.scopes):
+            for n, i in sc.items():
+                if n not in seen:
+                    seen.add(n)
+                    if pred(i):
+                        out.append(n)
+        return out
+
+    def declare(self, name, kind, callable_=None):
+        self.scopes[-1][name] = {"kind": kind, "callable": callable_}
+
+    def new_name(self):
+        # sometimes shadow an outer name
+        outer = [n for sc in self.scopes[:-1] for n in sc if n not in self.scopes[-1]]
+        if outer and self.r.random() < 0.15:
+            return self.r.choice(outer)
+        return self.fresh()
+
+    # ---- expressions
+    def small_int(self):
+        return self.r.choice([0, 1, 2, 3, 4, 5, 7, 10, -1, -2, 1, 2, 3])
+
+    def literal(self):
+        k = self.r.random()
+        if k < 0.55:
+            return num(self.small_int())
+        if k < 0.75:
+            return string(self.r.choice(["", "a", "b", "1", "2", "x", "ab", " 3 ", "-0", "z"]))
+        if k < 0.82:
+            return boolean(self.r.random() < 0.5)
+        if k < 0.88:
+            return undef()
+        if k < 0.93:
+            return null()
+        return num(self.r.choice(["nan", "pinf", "nz", "ninf"]))
+
+    def var_ref(self):
+        vs = self.visible()
+        if not vs or self.chance("p.undeclared"):
+            if self.chance("p.undeclared"):
+                return ident(self.fresh("u"))
+            return self.literal()
+        return ident(self.r.choice(vs))
+
+    def lvalue(self):
+        vs = self.visible(lambda i: i["kind"] in ("var", "let", "param") or (i["kind"] == "const" and self.r.random() < 0.05))
+        k = self.r.random()
+        if vs and k < 0.7:
+            return ident(self.r.choice(vs))
+        allv = self.visible(lambda i: i["callable"] is None)
+        if allv:
+            o = ident(self.r.choice(allv))
+            if self.r.random() < 0.7:
+                return member(o, self.r.choice(self.KEYS))
+            return index(o, self.r.choice([num(0), num(1), string("a"), num(2)]))
+        if vs:
+            return ident(self.r.choice(vs))
+        return None
+
+    def expr(self, d=0):
+        if d >= self.w["max_expr_depth"]:
+            return self.var_ref() if self.r.random() < 0.5 else self.literal()
+        k = self.pick("e.")
+        e = getattr(self, "e_" + k)(d + 1)
+        return e if e is not None else self.literal()
+
+    def operand(self, d):
+        """an expression used as an operator operand: not a function (its ToPrimitive is the unmodelled source text)"""
+        for _ in range(4):
+            e = self.expr(d)
+            if e["t"] in ("fn", "arrow", "genfn", "classexpr"):
+                continue
+            if e["t"] == "ident" and any(e["n"] in sc and sc[e["n"]]["callable"] is not None for sc in self.scopes):
+                continue
+            return e
+        return self.literal()
+
+    def e_lit(self, d): return self.literal()
+    def e_var(self, d): return self.var_ref()
+
+    def e_binary(self, d):
+        if self.r.random() < 0.3:
+            return binary(self.r.choice(self.CMP), self.operand(d), self.operand(d))
+        op = self.r.choice(self.ARITH)
+        r = self.operand(d)
+        if op in ("**", "<<"):
+            r = num(self.r.choice([0, 1, 2, 3]))
+        if op == "/":                      # quotients must stay integral (or be +-Infinity / NaN)
+            r = num(self.r.choice([0, 1, -1, "nz", 1]))
+        return binary(op, self.operand(d), r)
+
+    def e_unary(self, d): return unary(self.r.choice(["-", "+", "!", "~", "void", "-", "!"]), self.operand(d))
+    def e_logical(self, d): return logical(self.r.choice(["&&", "||", "??"]), self.expr(d), self.expr(d))
+    def e_cond(self, d): return cond(self.expr(d), self.expr(d), self.expr(d))
+
+    def e_assign(self, d):
+        t = self.lvalue()
+        if t is None:
+            return None
+        op = self.r.choice(["=", "=", "=", "+=", "-=", "*=", "||=", "&&=", "??=", "|=", "%="])
+        return assign(t, self.expr(d) if op == "=" else self.operand(d), op)
+
+    def e_update(self, d):
+        t = self.lvalue()
+        if t is None:
+            return None
+        return update(self.r.choice(["++", "--"]), self.r.random() < 0.5, t)
+
+    def e_call(self, d):
+        fs = [(n, i["callable"]) for sc in self.scopes for n, i in sc.items() if i["callable"] is not None]
+        fs = [(n, a) for n, a in fs if n in self.visible()]
+        if not fs:
+            return None
+        n, ar = self.r.choice(fs)
+        nargs = max(0, ar + self.r.choice([0, 0, 0, -1, 1]))
+        return call(ident(n), *[self.expr(d) for _ in range(nargs)])
+
+    def func_parts(self, d, arrow_=False):
+        """(params, body) of a nested function; restores generator state afterwards"""
+        saved = (self.loops, self.labels, self.in_switch, self.pending_tdz)
+        self.loops, self.labels, self.in_switch, self.pending_tdz = [], [], 0, []
+        self.fn_depth += 1
+        self.scopes.append({})
+        ps = []
+        for _ in range(self.r.choice([0, 1, 1, 2, 2, 3])):
+            nm = self.fresh("p")
+            if ps and not ps[-1].get("rest") and self.chance("p.rest_param") and _ == 0:
+                pass
+            dflt = 0
+            if self.chance("p.default_param"):
+                dflt = self.expr(self.w["max_expr_depth"] - 1)
+            ps.append(param(nm, default=dflt))
+            self.declare(nm, "param")
+        if self.chance("p.rest_param"):
+            nm = self.fresh("p")
+            ps.append(param(nm, rest=True))
+            self.declare(nm, "param")
+        body = self.stmts(d + 1, self.r.randint(1, 3), fn_body=True)
+        self.scopes.pop()
+        self.fn_depth -= 1
+        self.loops, self.labels, self.in_switch, self.pending_tdz = saved
+        return ps, body
+
+    def e_fn(self, d):
+        if self.fn_depth >= 2:
+            return None
+        ps, body = self.func_parts(d)
+        return fn(ps, body, name=self.r.choice(["", "", self.fresh("n")]))
+
+    def e_arrow(self, d):
+        if self.fn_depth >= 2:
+            return None
+        if self.r.random() < 0.5:
+            self.fn_depth += 1
+            self.scopes.append({})
+            ps = []
+            for _ in range(self.r.choice([0, 1, 1, 2])):
+                nm = self.fresh("p")
+                ps.append(param(nm))
+                self.declare(nm, "param")
+            e = self.expr(d)
+            self.scopes.pop()
+            self.fn_depth -= 1
+            return arrow(ps, ebody=e)
+        ps, body = self.func_parts(d)
+        return arrow(ps, body=body)
+
+    def e_object(self, d):
+        ps = []
+        for k in self.r.sample(self.KEYS, self.r.randint(0, 3)):
+            ps.append(prop(k, self.expr(d)))
+        return obj(*ps)
+
+    def e_array(self, d):
+        return array(*[self.expr(d) for _ in range(self.r.randint(0, 3))])
+
+    def e_member(self, d):
+        o = self.var_ref()
+        k = self.r.random()
+        if k < 0.5:
+            return member(o, self.r.choice(self.KEYS + ["length"]))
+        return index(o, self.r.choice([num(0), num(1), string("a"), self.expr(d)]))
+
+    def e_typeof(self, d): return unary("typeof", self.var_ref() if self.r.random() < 0.7 else self.expr(d))
+
+    def e_template(self, d):
+        n = self.r.randint(0, 2)
+        return template([self.r.choice(["", "a", " ", "x="]) for _ in range(n + 1)], [self.operand(d) for _ in range(n)])
+
+    def e_seq(self, d): return seq(self.expr(d), self.expr(d))
+
+    def e_new(self, d):
+        fs = [n for sc in self.scopes for n, i in sc.items() if i["callable"] is not None and i["kind"] == "fn" and n in self.visible()]
+        if fs and self.r.random() < 0.7:
+            return new(ident(self.r.choice(fs)))
+        return new(ident(self.r.choice(["Error", "TypeError", "RangeError"])), string("m"))
+
+    def e_coerce(self, d):
+        """object with observable valueOf / toString used as an operand"""
+        tag = self.r.choice(["v", "w", "t"])
+        ps = []
+        if self.r.random() < 0.8:
+            ps.append(prop("valueOf", fn([], [print_(string("valueOf:" + tag)), return_(self.literal())])))
+        if self.r.random() < 0.5:
+            ps.append(prop("toString", fn([], [print_(string("toString:" + tag)), return_(self.literal())])))
+        o = obj(*ps)
+        k = self.r.random()
+        if k < 0.6:
+            op = self.r.choice(["+", "-", "*", "<", "==", ">=", "%"])
+            return binary(op, o, self.expr(d)) if self.r.random() < 0.5 else binary(op, self.expr(d), o)
+        if k < 0.8:
+            return unary(self.r.choice(["-", "+", "~"]), o)
+        return template(["", ""], [o])
+
+    def e_optchain(self, d):
+        o = self.var_ref()
+        k = self.r.random()
+        if k < 0.5:
+            return optchain(N("member", o=o, key=self.r.choice(self.KEYS), optional=True))
+        if k < 0.8:
+            return optchain(member(N("member", o=o, key=self.r.choice(self.KEYS), optional=True), self.r.choice(self.KEYS)))
+        return optchain(N("call", f=member(o, self.r.choice(self.KEYS)), args=[], optional=True))
+
+    def e_spread(self, d):
+        a = array(*[self.expr(d) for _ in range(self.r.randint(0, 2))])
+        return array(self.expr(d), spread(a)) if self.r.random() < 0.5 else obj(N("prop", kind="spread", v=self.e_object(d)), prop("a", self.expr(d)))
+
+    def e_in(self, d): return binary("in", string(self.r.choice(self.KEYS)), self.e_object(d) if self.r.random() < 0.4 else self.var_ref())
+
+    def e_delete(self, d):
+        vs = self.visible(lambda i: i["callable"] is None)
+        if not vs:
+            return None
+        return unary("delete", member(ident(self.r.choice(vs)), self.r.choice(self.KEYS)))
+
+    def e_gen(self, d): return None
+
+    # ---- statements
+    def stmts(self, d, n, fn_body=False, top=False, in_case=False):
+        out = []
+        self.pending_tdz.append([])
+        if not (fn_body or top):
+            self.scopes.append({})
+        for _ in range(n):
+            s = self.stmt(d, (fn_body or top) and not in_case)
+            if s is not None:
+                out.append(s)
+        for nm in self.pending_tdz.pop():
+            out.append(let(nm, self.literal()))
+        if not (fn_body or top):
+            self.scopes.pop()
+        return out
+
+    def stmt(self, d, fn_top=False):
+        if d >= self.w["max_depth"]:
+            k = self.r.choice(["print", "assign", "decl", "expr"])
+        else:
+            k = self.pick("s.")
+        s = getattr(self, "s_" + k)(d, fn_top)
+        return s if s is not None else self.s_print(d, fn_top)
+
+    def s_decl(self, d, fn_top):
+        kind = self.r.choice(["var", "let", "let", "const"])
+        if self.chance("p.dupdecl") and self.scopes[-1]:
+            nm = self.r.choice(list(self.scopes[-1]))       # provokes an early error (or a legal var redeclaration)
+        else:
+            nm = self.new_name()
+            if nm in self.scopes[-1]:
+                nm = self.fresh()
+        init = self.expr()
+        callable_ = None
+        if kind == "const" and init["t"] in ("fn", "arrow") and not any(p.get("rest") for p in init["params"]):
+            callable_ = len(init["params"])
+        if kind != "const" and self.r.random() < 0.15:
+            init = 0
+        if self.chance("p.tdz") and self.pending_tdz:
+            t = self.fresh("t")
+            self.pending_tdz[-1].append(t)
+            init = binary("+", ident(t), num(1))
+        self.declare(nm, kind, callable_)
+        return N(kind, decls=[decl(nm, init)])
+
+    def s_assign(self, d, fn_top):
+        e = self.e_assign(1)
+        return expr(e) if e is not None else None
+
+    def s_expr(self, d, fn_top): return expr(self.expr())
+
+    def s_print(self, d, fn_top):
+        vs = self.visible()
+        args = [ident(self.r.choice(vs)) if vs and self.r.random() < 0.6 else self.expr(1) for _ in range(self.r.randint(1, 3))]
+        return print_(*args)
+
+    def body_block(self, d, n=None):
+        return block(*self.stmts(d + 1, n or self.r.randint(1, self.w["max_stmts"] // 2 + 1)))
+
+    def s_if(self, d, fn_top):
+        return if_(self.expr(1), self.body_block(d), self.body_block(d) if self.r.random() < 0.4 else 0)
+
+    def loop_body(self, d, label=""):
+        self.loops.append(label)
+        b = self.body_block(d)
+        self.loops.pop()
+        return b
+
+    def maybe_label(self, mk):
+        if self.r.random() < 0.25:
+            l = self.fresh("L")
+            return labeled(l, mk(l))
+        return mk("")
+
+    def s_for(self, d, fn_top):
+        i = self.fresh("i")
+        n = self.r.choice([1, 2, 2, 3])
+        kind = self.r.choice(["let", "let", "var"])
+
+        def mk(l):
+            self.scopes.append({})
+            self.scopes[-1][i] = {"kind": "const", "callable": None}   # readable, never a generated assignment target
+            b = self.loop_body(d, l)
+            self.scopes.pop()
+            return for_(N(kind, decls=[decl(i, num(0))]), binary("<", ident(i), num(n)), update("++", self.r.random() < 0.5, ident(i)), b)
+        return self.maybe_label(mk)
+
+    def s_while(self, d, fn_top):
+        w = self.fresh("w")
+        n = self.r.choice([1, 2, 3])
+        r = self.maybe_label(lambda l: while_(binary(">", update("--", False, ident(w)), num(0)), self.loop_body(d, l)))
+        return block(let(w, num(n)), r) if self.r.random() < 0.5 else N("block", body=[N("var", decls=[decl(w, num(n))]), r])
+
+    def s_dowhile(self, d, fn_top):
+        w = self.fresh("w")
+        n = self.r.choice([0, 1, 2])
+        r = self.maybe_label(lambda l: dowhile(self.loop_body(d, l), binary(">", update("--", False, ident(w)), num(0))))
+        return block(let(w, num(n)), r)
+
+    def s_block(self, d, fn_top): return self.body_block(d)
+
+    def s_try(self, d, fn_top):
+        k = self.r.random()
+        b = self.body_block(d)
+        if self.r.random() < 0.5:
+            b["body"].insert(self.r.randint(0, len(b["body"])), throw(self.expr(2) if self.r.random() < 0.6 else new(ident("Error"), string("e"))))
+        h = f = 0
+        p = 0
+        if k < 0.75:
+            self.scopes.append({})
+            if self.r.random() < 0.8:
+                p = self.fresh("e")
+                self.declare(p, "let")
+            h = self.body_block(d)
+            self.scopes.pop()
+        if k >= 0.45:
+            f = self.body_block(d, 1 if self.r.random() < 0.7 else 2)
+        return try_(b, p, h, f)
+
+    def s_throw(self, d, fn_top): return throw(self.expr(2))
+
+    def s_fundecl(self, d, fn_top):
+        if self.fn_depth >= 2 or (not fn_top and not self.strict):
+            return None
+        nm = self.fresh("f")
+        ps, body = self.func_parts(d)
+        self.declare(nm, "fn", None if any(p.get("rest") for p in ps) else len(ps))
+        return function(nm, ps, body)
+
+    def s_return(self, d, fn_top):
+        if self.fn_depth == 0:
+            return None
+        return return_(self.expr(1) if self.r.random() < 0.85 else 0)
+
+    def s_break(self, d, fn_top):
+        targets = [l for l in self.loops + self.labels if l] + ([""] if (self.loops or self.in_switch) else [])
+        if not targets:
+            return None
+        return if_(self.expr(2), break_(self.r.choice(targets))) if self.r.random() < 0.6 else break_(self.r.choice(targets))
+
+    def s_continue(self, d, fn_top):
+        if not self.loops:
+            return None
+        targets = [l for l in self.loops if l] + [""]
+        return if_(self.expr(2), continue_(self.r.choice(targets))) if self.r.random() < 0.6 else continue_(self.r.choice(targets))
+
+    def s_labeled(self, d, fn_top):
+        l = self.fresh("L")
+        self.labels.append(l)
+        saved = self.loops
+        b = self.body_block(d)
+        self.labels.pop()
+        return labeled(l, b)
+
+    def s_switch(self, d, fn_top):
+        self.in_switch += 1
+        self.scopes.append({})
+        cases = []
+        vals = [num(0), num(1), num(2), string("a"), string("1")]
+        dflt_at = self.r.choice([-1, 0, 1, 2])
+        for ci in range(self.r.randint(1, 3)):
+            body = self.stmts(d + 1, self.r.randint(0, 2), fn_body=True, in_case=True)      # one scope for the whole case block
+            if self.r.random() < 0.5:
+                body.append(break_())
+            cases.append(case(0 if ci == dflt_at else self.r.choice(vals), *body))
+        self.scopes.pop()
+        self.in_switch -= 1
+        saved_loops = self.loops
+        return switch(self.expr(2), *cases)
+
+    def s_forin(self, d, fn_top):
+        x = self.fresh("k")
+
+        def mk(l):
+            self.scopes.append({})
+            self.scopes[-1][x] = {"kind": "const", "callable": None}
+            b = self.loop_body(d, l)
+            self.scopes.pop()
+            return forin(self.r.choice(["let", "const", "var"]), x, self.e_object(1) if self.r.random() < 0.6 else self.var_ref(), b)
+        return self.maybe_label(mk)
+
+    def s_forof(self, d, fn_top):
+        x = self.fresh("x")
+
+        def mk(l):
+            self.scopes.append({})
+            self.scopes[-1][x] = {"kind": "const", "callable": None}
+            b = self.loop_body(d, l)
+            self.scopes.pop()
+            return forof(self.r.choice(["let", "const", "var"]), x, self.e_array(1), b)
+        return self.maybe_label(mk)
+
+    def s_destruct(self, d, fn_top):
+        kind = self.r.choice(["let", "const", "var"])
+        names = [self.fresh() for _ in range(3)]
+        for nm in names:
+            self.declare(nm, kind)
+        if self.r.random() < 0.5:
+            pat = arraypat(ident(names[0]), pelem(ident(names[1]), self.literal()), prest(ident(names[2])))
+            src = self.e_array(1)
+        else:
+            pat = objectpat(pprop("a", ident(names[0])), pprop("b", ident(names[1]), self.literal()), rest=ident(names[2]))
+            src = self.e_object(1)
+        return N(kind, decls=[decl(pat, src)])
+
+    def s_class(self, d, fn_top): return None
+
+    def program(self):
+        self.strict = self.chance("p.strict")
+        self.scopes = [{}]
+        body = self.stmts(0, self.r.randint(3, self.w["max_stmts"] + 2), top=True)
+        vs = self.visible(lambda i: i["kind"] in ("var", "let", "const"))
+        if vs:
+            body.append(print_(*[unary("typeof", ident(v)) if self.r.random() < 0.2 else ident(v) for v in self.r.sample(vs, min(3, len(vs)))]))
+        return program(body, strict=self.strict)
+
+
+def gen_program(seed, profile="c01"):
+    """One random program; `seed` is an int or a random.Random."""
+    rng = seed if isinstance(seed, random.Random) else random.Random(seed)
+    return Gen(rng, profile).program()
+
+
+def gen_programs(seed, n, profile="c01"):
+    rng = random.Random(seed)
+    return [Gen(random.Random(rng.getrandbits(48)), profile).program() for _ in range(n)]
+
+
+
+# ------------------------------------------------------------------------------------------- shrinking
+import copy
+
+_STMT_LISTS = {"program": "body", "block": "body", "function": "body", "generator": "body", "fn": "body", "genfn": "body",
+               "arrow": "body", "method": "body", "case": "body"}
+_STMT_KINDS = {"var", "let", "const", "function", "generator", "class", "expr", "block", "if", "empty", "while", "dowhile", "for",
+               "forin", "forof", "labeled", "break", "continue", "return", "throw", "try", "switch", "print"}
+_EXPR_FIELDS = {"e", "l", "r", "c", "a", "b", "o", "k", "f", "v", "init", "default", "d", "test", "obj", "iter", "update", "ebody"}
+
+
+def _paths(node, path=()):
+    yield path, node
+    for f, _ in SCHEMA[node["t"]]:
+        v = node.get(f)
+        if isinstance(v, dict) and "t" in v and f != "val":
+            yield from _paths(v, path + ((f, None),))
+        elif isinstance(v, list):
+            for i, x in enumerate(v):
+                if isinstance(x, dict) and "t" in x:
+                    yield from _paths(x, path + ((f, i),))
+
+
+def _get(root, path):
+    n = root
+    for f, i in path:
+        n = n[f] if i is None else n[f][i]
+    return n
+
+
+def _set(root, path, val):
+    n = _get(root, path[:-1])
+    f, i = path[-1]
+    if i is None:
+        n[f] = val
+    else:
+        n[f][i] = val
+
+
+def _is_expr(n):
+    return n["t"] not in _STMT_KINDS and n["t"] not in ("program", "decl", "param", "case", "prop", "cmember", "pelem", "prest",
+                                                        "pprop", "arraypat", "objectpat", "hole", "spread", "method")
+
+
+def variants(ast, limit=400):
+    """one-step simplifications of a program: delete a statement, unwrap a compound statement, replace an expression
+    by an operand or by a literal.  Smaller candidates first within each class."""
+    out = []
+    allp = list(_paths(ast))
+    # 1. delete a statement from a statement list (largest statements first)
+    dels = []
+    for path, n in allp:
+        lf = _STMT_LISTS.get(n["t"])
+        if lf:
+            for i, st in enumerate(n[lf]):
+                dels.append((-size(st), path, lf, i))
+    dels.sort(key=lambda x: x[0])
+    for _, path, lf, i in dels:
+        c = copy.deepcopy(ast)
+        del _get(c, path)[lf][i]
+        out.append(c)
+    # 2. unwrap compound statements
+    for path, n in allp:
+        if not path or n["t"] not in _STMT_KINDS or path[-1][0] in ("b", "h", "f"):
+            continue
+        subs = []
+        t = n["t"]
+        if t == "if":
+            subs = [n["a"]] + ([n["b"]] if n.get("b") else [])
+        elif t in ("while", "dowhile", "for", "forin", "forof", "labeled"):
+            subs = [n["s"]]
+        elif t == "try":
+            subs = [x for x in (n["b"], n.get("h"), n.get("f")) if x]
+        elif t == "block" and len(n["body"]) == 1:
+            subs = [n["body"][0]]
+        for sub in subs:
+            c = copy.deepcopy(ast)
+            _set(c, path, copy.deepcopy(sub))
+            out.append(c)
+    # 3. expressions: replace by an operand, or by a literal
+    for path, n in allp:
+        if not path or not _is_expr(n) or path[-1][0] in ("target", "params", "decls", "p"):
+            continue
+        if n["t"] in ("lit",):
+            continue
+        subs = [ch for f, ch in children(n) if _is_expr(ch) and f != "target"]
+        for sub in subs + [num(0), undef()]:
+            c = copy.deepcopy(ast)
+            _set(c, path, copy.deepcopy(sub))
+            out.append(c)
+    return out[:limit]
+
+
+def shrink(ast, failing_batch, max_rounds=40, limit=300):
+    """Greedy batch shrinking. failing_batch(list of programs) -> list of bools ("still fails").
+    Returns a locally minimal failing program."""
+    cur = ast
+    for _ in range(max_rounds):
+        cands = []
+        for c in variants(cur, limit):
+            try:
+                flatten(c)
+                render(c)
+            except Exception:
+                continue
+            cands.append(c)
+        if not cands:
+            break
+        res = failing_batch(cands)
+        nxt = None
+        for c, bad in zip(cands, res):
+            if bad:
+                nxt = c
+                break
+        if nxt is None:
+            break
+        cur = nxt
+    return cur
+
+
+
+# ------------------------------------------------------------------------------------------- interaction grids
+# Deterministic template x hole families (DESIGN.md 5/C01).  grids(tier) -> list of (name, program AST).
+import itertools
+
+I = ident
+S = string
+
+
+def _p(*parts): return print_(*parts)
+
+
+def _guard(stmts, tag="E"):
+    """try { stmts } catch (e) { print(tag, e) }"""
+    return try_(block(*stmts), "e", block(print_(S(tag), I("e"))))
+
+
+def grid_exits(tier):
+    """{exit kind} x {finally nesting 0..2} x {loop form} x {catch present} x {finalizer overrides}"""
+    out = []
+    loops = ["while", "dowhile", "for", "forof", "forin", "switch", "block"]
+    exits = ["break", "continue", "breakL", "continueL", "return", "throw", "fallthrough"]
+    nests = [0, 1, 2] if tier == "quick" else [0, 1, 2, 3]
+    for loop, ex, nest, catch, over in itertools.product(loops, exits, nests, [False, True], ["", "break", "return"]):
+        if ex in ("continue", "continueL") and loop in ("switch", "block"):
+            continue
+        if ex == "break" and loop == "block":
+            continue
+        if nest == 0 and (catch or over):
+            continue
+        if over == "break" and loop == "block":
+            continue
+        if over and nest != 1:
+            continue
+        exit_stmt = {"break": break_(), "continue": continue_(), "breakL": break_("L"), "continueL": continue_("L"),
+                     "return": return_(num(1)), "throw": throw(num(2)), "fallthrough": _p(S("x"))}[ex]
+        inner = [if_(binary("==", I("i"), num(0)), exit_stmt)] if loop not in ("switch", "block") else [exit_stmt]
+        body = inner
+        for lv in range(1, nest + 1):
+            fin = [_p(S("f%d" % lv))]
+            if over and lv == 1:
+                fin.append(break_() if over == "break" else return_(num(7)))
+            body = [try_(block(_p(S("t%d" % lv)), *body),
+                         ("e" if catch else 0), (block(_p(S("c%d" % lv), I("e"))) if catch else 0), block(*fin))]
+        body = body + [_p(S("after"), I("i"))]
+        if loop == "while":
+            lp = block(let("i", num(-1)), labeled("L", while_(binary("<", update("++", True, I("i")), num(2)), block(*body))))
+        elif loop == "dowhile":
+            lp = block(let("i", num(-1)), labeled("L", dowhile(block(expr(update("++", False, I("i"))), *body), binary("<", I("i"), num(1)))))
+        elif loop == "for":
+            lp = labeled("L", for_(N("let", decls=[decl("i", num(0))]), binary("<", I("i"), num(2)), update("++", False, I("i")), block(*body)))
+        elif loop == "forof":
+            lp = labeled("L", forof("const", "i", array(num(0), num(1)), block(*body)))
+        elif loop == "forin":
+            lp = labeled("L", forin("let", "k", obj(prop("p", num(0)), prop("q", num(1))),
+                                    block(let("i", cond(binary("==", I("k"), S("p")), num(0), num(1))), *body)))
+        elif loop == "switch":
+            lp = block(let("i", num(0)), labeled("L", switch(num(1), case(num(1), *body), case(num(2), _p(S("case2"))))))
+        else:
+            lp = block(let("i", num(0)), labeled("L", block(*body)))
+        f = function("f", [], [_p(S("a")), lp, _p(S("end")), return_(num(9))])
+        main = _guard([_p(call(I("f")))], "caught")
+        out.append(("exit/%s/%s/n%d/%s/%s" % (loop, ex, nest, "c" if catch else "-", over or "-"), program([f, main])))
+    return out
+
+
+def grid_generator_exits(tier):
+    """yield inside try/finally nests, resumed with next / return / throw; for-of early exit closes the generator"""
+    out = []
+    for nest, catch, how, finy in itertools.product([0, 1, 2], [False, True], ["next", "return", "throw", "forof-break", "spread"], [False, True]):
+        if nest == 0 and (catch or finy):
+            continue
+        body = [let("r", yield_(num(1))), _p(S("r"), I("r"))]
+        for lv in range(1, nest + 1):
+            fin = [_p(S("f%d" % lv))]
+            if finy and lv == 1:
+                fin.append(expr(yield_(num(50))))
+            body = [try_(block(_p(S("t%d" % lv)), *body), ("e" if catch else 0), (block(_p(S("c%d" % lv), I("e"))) if catch else 0), block(*fin))]
+        g = generator("g", [], [_p(S("start")), *body, expr(yield_(num(2))), return_(num(3))])
+        show = lambda e: [let("x", e), _p(member(I("x"), "value"), member(I("x"), "done"))]
+        if how in ("next", "return", "throw"):
+            second = {"next": call(member(I("it"), "next"), S("n")), "return": call(member(I("it"), "return"), S("R")),
+                      "throw": call(member(I("it"), "throw"), S("T"))}[how]
+            use = [let("it", call(I("g"))), block(*show(call(member(I("it"), "next")))), block(*show(second)),
+                   block(*show(call(member(I("it"), "next")))), block(*show(call(member(I("it"), "next"))))]
+        elif how == "forof-break":
+            use = [forof("const", "v", call(I("g")), block(_p(S("v"), I("v")), break_()))]
+        else:
+            use = [_p(member(array(spread(call(I("g")))), "length"))]
+        out.append(("gen/n%d/%s/%s/%s" % (nest, "c" if catch else "-", how, "y" if finy else "-"), program([g, _guard(use, "caught")])))
+    return out
+
+
+def grid_bindings(tier):
+    out = []
+    # T1: read / write before initialisation, by declaration kind and place
+    decls = {"var": lambda: var("x", num(1)), "let": lambda: let("x", num(1)), "const": lambda: const("x", num(1)),
+             "function": lambda: function("x", [], []), "class": lambda: class_("x", [])}
+    reads = {"value": lambda: _p(I("x")), "typeof": lambda: _p(unary("typeof", I("x"))),
+             "closure": lambda: _p(call(arrow([], ebody=unary("typeof", I("x"))))), "write": lambda: expr(assign(I("x"), num(2)))}
+    for strict in (False, True):
+        for dk, rk, place in itertools.product(decls, reads, ["script", "function", "block", "case-skip", "case-fall"]):
+            if dk == "function" and place in ("block", "case-skip", "case-fall") and not strict:
+                continue
+            seqn = [_guard([reads[rk]()]), decls[dk](), _guard([reads[rk]()])]
+            if place == "script":
+                body = seqn
+            elif place == "function":
+                body = [function("f", [], seqn), expr(call(I("f")))]
+            elif place == "block":
+                body = [block(*seqn)]
+            elif place == "case-skip":     # the declaration's clause is skipped: the binding stays uninitialised
+                body = [switch(num(1), case(num(0), decls[dk]()), case(num(1), _guard([reads[rk]()])))]
+            else:
+                body = [switch(num(0), case(num(0), _guard([reads[rk]()]), decls[dk]()), case(num(1), _guard([reads[rk]()])))]
+            out.append(("tdz/%s/%s/%s/%s" % (dk, rk, place, "strict" if strict else "sloppy"), program(body, strict=strict)))
+    # T2: closures captured in the parts of a for loop
+    for kind, where, mutate in itertools.product(["var", "let"], ["init", "test", "update", "body"], [False, True]):
+        cap = call(member(I("fs"), "push"), arrow([], ebody=I("i")))
+        init = N(kind, decls=[decl("i", seq(cap, num(0)) if where == "init" else num(0))])
+        test = binary("<", I("i"), num(3))
+        if where == "test":
+            test = seq(cap, test)
+        upd = update("++", False, I("i"))
+        if where == "update":
+            upd = seq(cap, upd)
+        body = []
+        if where == "body":
+            body.append(expr(cap))
+        if mutate:
+            body.append(expr(assign(I("i"), num(1), "+=")))
+        body.append(_p(S("it"), I("i")))
+        prog = program([let("fs", array()), for_(init, test, upd, block(*body)),
+                        forof("const", "f", I("fs"), block(_p(call(I("f")))))])
+        out.append(("forclosure/%s/%s/%s" % (kind, where, "mut" if mutate else "-"), prog))
+    # T3: parameter scope: default-parameter closures against body declarations
+    bodies = {"none": [], "var": [var("a", num(5))], "var-noinit": [var("a")], "function": [function("a", [], [])],
+              "assign": [expr(assign(I("a"), num(6)))], "let-b": [let("z", num(0))]}
+    for bk, passed, strict in itertools.product(bodies, [False, True], [False, True]):
+        f = function("f", [param("a"), param("b", default=arrow([], ebody=I("a"))), param("c", default=I("a"))],
+                     bodies[bk] + [_p(unary("typeof", I("a")), unary("typeof", call(I("b"))), I("c")),
+                                   expr(assign(I("a"), num(8))), _p(I("a"), unary("typeof", call(I("b"))))])
+        prog = program([f, _guard([expr(call(I("f"), *([num(1)] if passed else [])))])], strict=strict)
+        out.append(("paramscope/%s/%s/%s" % (bk, "arg" if passed else "noarg", "strict" if strict else "sloppy"), prog))
+    # later parameters are in TDZ for earlier defaults; arguments object; duplicate/shadowed names
+    for strict in (False, True):
+        out.append(("paramtdz/%s" % strict, program([function("f", [param("a", default=I("b")), param("b", default=num(1))], [_p(I("a"), I("b"))]),
+                                                      _guard([expr(call(I("f")))]), _guard([expr(call(I("f"), num(2)))])], strict=strict)))
+        out.append(("fnname/%s" % strict, program([let("g", fn([], [_guard([expr(assign(I("h"), num(1)))]), _p(unary("typeof", I("h")))], name="h")),
+                                                    expr(call(I("g"))), _p(unary("typeof", I("h")))], strict=strict)))
+        out.append(("constassign/%s" % strict, program([const("k", num(1)), _guard([expr(assign(I("k"), num(2)))]), _guard([expr(update("++", False, I("k")))]), _p(I("k"))], strict=strict)))
+        out.append(("undeclared/%s" % strict, program([_guard([expr(assign(I("u"), num(1)))]), _p(unary("typeof", I("u")))], strict=strict)))
+    # early errors
+    early = {
+        "let-let": [let("a", num(1)), let("a", num(2))], "let-var": [let("a", num(1)), var("a", num(2))],
+        "var-let": [var("a", num(1)), let("a", num(2))], "const-fn": [const("a", num(1)), function("a", [], [])],
+        "var-var": [var("a", num(1)), var("a", num(2)), _p(I("a"))], "fn-fn": [function("a", [], [return_(num(1))]), function("a", [], [return_(num(2))]), _p(call(I("a")))],
+        "class-let": [class_("a", []), let("a", num(1))],
+        "block-let-var": [block(let("a", num(1)), block(var("a", num(2))))],
+        "catch-let": [try_(block(), "e", block(let("e", num(1))))],
+        "catch-var": [try_(block(throw(num(1))), "e", block(var("e", num(2)), _p(I("e")))), _p(I("e"))],
+        "for-let-var": [for_(N("let", decls=[decl("i", num(0))]), boolean(False), 0, block(var("i")))],
+        "label-dup": [labeled("L", labeled("L", block()))], "break-nolabel": [block(break_("Q"))], "continue-block": [labeled("L", block(continue_("L")))],
+        "break-top": [break_()], "return-top": [return_(num(1))],
+    }
+    for nm, body in early.items():
+        for where in ("script", "function", "arrow"):
+            for strict in (False, True):
+                b = [_p(S("start"))] + body
+                if where == "function":
+                    b = [_p(S("start")), function("f", [], body), expr(call(I("f")))]
+                elif where == "arrow":
+                    b = [_p(S("start")), expr(call(arrow([], body=body)))]
+                if nm == "return-top" and where != "script":
+                    continue
+                out.append(("early/%s/%s/%s" % (nm, where, "strict" if strict else "sloppy"), program(b, strict=strict)))
+    for strict in (False, True):
+        out.append(("early/param-let/%s" % strict, program([_p(S("start")), function("f", params("a"), [let("a", num(1))])], strict=strict)))
+        out.append(("early/param-dup/%s" % strict, program([_p(S("start")), function("f", params("a", "a"), [return_(I("a"))]), _p(call(I("f"), num(1), num(2)))], strict=strict)))
+        out.append(("early/param-dup-arrow/%s" % strict, program([_p(S("start")), let("f", arrow(params("a", "a"), ebody=I("a")))], strict=strict)))
+    return out
+
+
+def operand_classes():
+    def logobj(tag, **kw):
+        ps = []
+        for k, ret in kw.items():
+            if k == "prim":
+                ps.append(cprop(member(I("Symbol"), "toPrimitive"), fn(params("h"), [_p(S(tag + ":prim"), I("h")), return_(ret)])))
+            else:
+                ps.append(prop(k, fn([], [_p(S(tag + ":" + k)), return_(ret)])))
+        return obj(*ps)
+    return {
+        "int": lambda t: num(7), "neg": lambda t: num(-2), "zero": lambda t: num(0), "nz": lambda t: num("nz"), "nan": lambda t: num("nan"),
+        "inf": lambda t: num("pinf"), "strnum": lambda t: S("3"), "str": lambda t: S("a"), "empty": lambda t: S(""), "true": lambda t: boolean(True),
+        "null": lambda t: null(), "undef": lambda t: undef(),
+        "objV": lambda t: logobj(t, valueOf=num(4)), "objS": lambda t: logobj(t, toString=S("5")),
+        "objVS": lambda t: logobj(t, valueOf=num(4), toString=S("5")), "objVobj": lambda t: logobj(t, valueOf=obj(), toString=S("6")),
+        "objP": lambda t: logobj(t, prim=num(8), valueOf=num(4)), "objBad": lambda t: logobj(t, valueOf=obj(), toString=obj()),
+        "plain": lambda t: obj(), "arr": lambda t: array(num(1)), "arr2": lambda t: array(num(1), num(2)), "sym": lambda t: call(I("Symbol"), S("s")),
+    }
+
+
+def grid_operators(tier):
+    out = []
+    cls = operand_classes()
+    prim = ["int", "neg", "zero", "nz", "nan", "inf", "strnum", "str", "empty", "true", "null", "undef"]
+    objs = ["objV", "objS", "objVS", "objVobj", "objP", "objBad", "plain", "arr", "arr2", "sym"]
+    ops = ["+", "-", "*", "/", "%", "**", "<<", ">>", ">>>", "&", "|", "^", "==", "!=", "===", "!==", "<", ">", "<=", ">="]
+    for op in ops:
+        for lc in cls:
+            if tier == "quick" and op not in ("+", "<", "==", "-", ">=") and lc not in ("objVS", "objP", "sym", "str", "nz"):
+                continue
+            stmts = []
+            for rc in cls:
+                if op == "/" and not (lc in objs or rc in objs or rc in ("zero", "nz", "nan", "inf", "null", "undef", "str", "empty") or lc in ("zero", "nz", "nan", "inf")):
+                    continue
+                stmts.append(_guard([_p(S(rc), binary(op, cls[lc]("L"), cls[rc]("R")))]))
+            out.append(("binop/%s/%s" % (op, lc), program(stmts)))
+    for lc in cls:
+        stmts = []
+        for op in ["-", "+", "!", "~", "typeof", "void"]:
+            stmts.append(_guard([_p(S(op), unary(op, cls[lc]("U")))]))
+        stmts.append(_guard([_p(S("tpl"), template(["<", ">"], [cls[lc]("T")]))]))
+        stmts.append(_guard([_p(S("key"), index(obj(prop("4", S("four")), prop("5", S("five")), prop("a", S("A"))), cls[lc]("K")))]))
+        for uop, pre in (("++", True), ("--", False)):
+            stmts.append(_guard([let("v", cls[lc]("V")), _p(S(uop), update(uop, pre, I("v")), I("v"))]))
+        for aop in ("+=", "-=", "&&=", "||=", "??="):
+            stmts.append(_guard([let("v", cls[lc]("A")), _p(S(aop), assign(I("v"), num(1), aop), I("v"))]))
+        stmts.append(_guard([let("o", obj(prop("p", cls[lc]("M")))), _p(S("m++"), update("++", False, member(I("o"), "p")), member(I("o"), "p"))]))
+        out.append(("unop/%s" % lc, program(stmts)))
+    # evaluation order of operands and assignment targets
+    tr = lambda tag, e: seq(call(I("t"), S(tag)), e)
+    t = function("t", params("x"), [_p(S("ev"), I("x"))])
+    order = {
+        "binary": binary("+", tr("l", num(1)), tr("r", num(2))),
+        "member-assign": assign(index(tr("o", I("ob")), tr("k", S("a"))), tr("v", num(3))),
+        "member-compound": assign(index(tr("o", I("ob")), tr("k", S("a"))), tr("v", num(3)), "+="),
+        "call": call(member(tr("o", I("ob")), "m"), tr("a1", num(1)), tr("a2", num(2))),
+        "local-alias": binary("+", I("x1"), assign(I("x1"), num(5))),
+        "local-alias-mul": binary("*", I("x1"), update("++", False, I("x1"))),
+        "null-assign": assign(member(I("nul"), "p"), tr("rhs", num(1))),
+        "cond": cond(tr("c", num(0)), tr("a", num(1)), tr("b", num(2))),
+        "logical": logical("??", tr("l", null()), tr("r", num(2))),
+        "new": new(tr("f", I("C")), tr("a", num(1))),
+        "notfn": call(tr("f", undef()), tr("a", num(1))),
+        "string-update": update("++", False, I("s1")),
+    }
+    for nm, e in order.items():
+        for where in ("script", "function"):
+            setup = [t, let("ob", obj(prop("a", num(1)), prop("m", fn(params("p", "q"), [return_(binary("+", I("p"), I("q")))])))),
+                     let("nul", null()), function("C", params("z"), [])]
+            core = [let("x1", num(1)), let("s1", S("5")), _guard([_p(S("res"), e)]), _p(I("x1"), I("s1"), member(I("ob"), "a"))]
+            body = setup + (core if where == "script" else [function("w", [], core), expr(call(I("w")))])
+            out.append(("order/%s/%s" % (nm, where), program(body)))
+    return out
+
+
+def grid_destructuring(tier):
+    out = []
+    A, B, R = I("a"), I("b"), I("r")
+    pats = {
+        "[a]": (lambda: arraypat(A), ["a"]), "[a,b]": (lambda: arraypat(A, B), ["a", "b"]), "[a=9]": (lambda: arraypat(pelem(A, num(9))), ["a"]),
+        "[,a]": (lambda: arraypat(hole(), A), ["a"]), "[...r]": (lambda: arraypat(prest(R)), ["r"]), "[a,...r]": (lambda: arraypat(A, prest(R)), ["a", "r"]),
+        "{a}": (lambda: objectpat(pprop("a")), ["a"]), "{a:b}": (lambda: objectpat(pprop("a", B)), ["b"]), "{a=9}": (lambda: objectpat(pprop("a", A, num(9))), ["a"]),
+        "{a:{b}}": (lambda: objectpat(pprop("a", objectpat(pprop("b")))), ["b"]), "{a:[b]}": (lambda: objectpat(pprop("a", arraypat(B))), ["b"]),
+        "{...r}": (lambda: objectpat(rest=R), ["r"]), "{a,...r}": (lambda: objectpat(pprop("a"), rest=R), ["a", "r"]),
+        "{a:[b],...r}": (lambda: objectpat(pprop("a", arraypat(B)), rest=R), ["b", "r"]), "{a:{b},...r}": (lambda: objectpat(pprop("a", objectpat(pprop("b"))), rest=R), ["b", "r"]),
+        "[{a}]": (lambda: arraypat(objectpat(pprop("a"))), ["a"]),
+        "{[k]:a}": (lambda: objectpat(N("pprop", computed=True, k=seq(call(I("t"), S("key")), S("a")), target=A)), ["a"]),
+    }
+    gen_src = lambda: call(I("G"))
+    srcs = {
+        "[]": lambda: array(), "[1]": lambda: array(num(1)), "[1,2,3]": lambda: array(num(1), num(2), num(3)), "[[5]]": lambda: array(array(num(5))),
+        "[{a:4}]": lambda: array(obj(prop("a", num(4)))), "{a:1}": lambda: obj(prop("a", num(1))), "{a:{b:2},c:3}": lambda: obj(prop("a", obj(prop("b", num(2)))), prop("c", num(3))),
+        "{a:[3],b:4}": lambda: obj(prop("a", array(num(3))), prop("b", num(4))), "null": lambda: null(), "undef": lambda: undef(), "5": lambda: num(5),
+        "gen": gen_src, "getters": lambda: I("GO"),
+    }
+    helpers = [function("t", params("x"), [_p(S("ev"), I("x")), return_(I("x"))]),
+               generator("G", [], [try_(block(expr(yield_(num(1))), expr(yield_(num(2))), expr(yield_(num(3)))), 0, 0, block(_p(S("closed"))))]),
+               let("GO", obj(N("prop", kind="get", key="a", v=method([], [_p(S("get a")), return_(array(num(1)))])),
+                             N("prop", kind="get", key="b", v=method([], [_p(S("get b")), return_(num(2))]))))]
+    show = lambda names: _p(*[(member(I(n), "length") if n == "r" and False else I(n)) for n in names])
+    ctxs = ["let", "assign", "param", "forof", "catch"] if tier != "quick" else ["let", "assign", "param"]
+    for (pn, (mk, names)), (sn, ms), ctx in itertools.product(pats.items(), srcs.items(), ctxs):
+        if tier == "quick" and ctx == "param" and sn not in ("[1,2,3]", "{a:{b:2},c:3}", "gen", "null"):
+            continue
+        dump = [_p(S(n), I(n)) for n in names]
+        for n in names:
+            if n == "r":
+                dump.append(_guard([_p(S("r.len"), member(R, "length"), S("r.a"), member(R, "a"), S("r.b"), member(R, "b"), S("r.c"), member(R, "c"))]))
+        if ctx == "let":
+            core = [N("let", decls=[decl(mk(), ms())])] + dump
+        elif ctx == "assign":
+            core = [N("let", decls=[decl(n) for n in ["a", "b", "r"]]), expr(assign(mk(), ms()))] + dump
+        elif ctx == "param":
+            out.append(("destr/%s/%s/%s" % (ctx, pn, sn),
+                        program(helpers + [function("f", [param(mk())], dump), _guard([expr(call(I("f"), ms()))])])))
+            continue
+        elif ctx == "forof":
+            core = [forof("const", mk(), array(ms()), block(*dump))]
+        else:
+            core = [try_(block(throw(ms())), mk(), block(*dump))]
+        out.append(("destr/%s/%s/%s" % (ctx, pn, sn), program(helpers + [_guard(core)])))
+    return out
+
+
+def grid_completion(tier):
+    out = []
+    E = lambda n: expr(num(n))
+    stmts = {
+        "if-true-empty": if_(boolean(True), block()), "if-false": if_(boolean(False), E(2)), "if-else": if_(boolean(False), E(2), E(3)),
+        "if-true-val": if_(boolean(True), E(2)), "while-false": while_(boolean(False), E(2)), "do-empty": dowhile(block(), boolean(False)),
+        "do-break": dowhile(block(E(2), break_()), boolean(False)), "while-break": while_(boolean(True), block(E(3), break_())),
+        "while-break-empty": while_(boolean(True), block(break_())), "for-false": for_(0, boolean(False), 0, E(2)),
+        "for-continue": for_(N("let", decls=[decl("i", num(0))]), binary("<", I("i"), num(2)), update("++", False, I("i")), block(E(4), continue_())),
+        "block-empty": block(), "block-val": block(E(5)), "label-break": labeled("L", block(E(4), break_("L"))), "label-break-empty": labeled("L", block(break_("L"))),
+        "try-finally": try_(block(E(5)), 0, 0, block(E(6))), "try-empty-finally": try_(block(), 0, 0, block(E(6))), "try-catch": try_(block(throw(num(1))), "e", block(E(7))),
+        "try-catch-empty": try_(block(throw(num(1))), "e", block()), "switch-nomatch": switch(num(1), case(num(2), E(8))), "switch-match": switch(num(1), case(num(1), E(8))),
+        "switch-empty-case": switch(num(1), case(num(1))), "switch-break": switch(num(1), case(num(1), E(8), break_())), "var": var("q", num(9)), "let": let("q", num(9)),
+        "function": function("q", [], []), "empty": N("empty"), "forof": forof("const", "x", array(num(1), num(2)), E(7)), "forof-empty": forof("const", "x", array(num(1)), block()),
+        "forin-empty": forin("const", "x", obj(), E(7)), "class": class_("Q", []), "if-break-in-loop": dowhile(block(E(2), if_(boolean(True), break_())), boolean(False)),
+        "try-break-finally": dowhile(block(E(2), try_(block(break_()), 0, 0, block(E(3)))), boolean(False)),
+    }
+    for nm, st in stmts.items():
+        for pre in (True, False):
+            for strict in (False, True):
+                out.append(("completion/%s/%s/%s" % (nm, "pre" if pre else "-", "strict" if strict else "sloppy"),
+                            program(([E(1)] if pre else []) + [copy.deepcopy(st)], strict=strict)))
+    return out
+
+
+def grid_classes(tier):
+    out = []
+    C = I("C")
+    base = lambda extra=[]: class_("A", [ctor(params("x"), [_p(S("A.ctor"), I("x")), expr(assign(member(this(), "x"), I("x")))]),
+                                        cmethod("m", [], [return_(S("A.m"))]), cmethod("s", [], [return_(S("A.s"))], static=True)] + extra)
+    cases = {
+        "field-order": [class_("C", [cfield("a", seq(call(I("t"), S("a")), num(1))), ctor([], [_p(S("ctor"), member(this(), "a"), member(this(), "b"))]),
+                                     cfield("b", seq(call(I("t"), S("b")), member(this(), "a"))), cfield("s", seq(call(I("t"), S("static")), num(3)), static=True)]),
+                        _p(S("defined")), let("c", new(C)), _p(member(I("c"), "a"), member(I("c"), "b"), member(C, "s"))],
+        "derived-this-tdz": [base(), class_("C", [ctor([], [_guard([_p(this())]), expr(super_call(num(1))), _p(member(this(), "x")), _guard([expr(super_call(num(2)))])])], super_=I("A")), expr(new(C))],
+        "derived-no-super": [base(), class_("C", [ctor([], [])], super_=I("A")), _guard([expr(new(C))])],
+        "derived-return-obj": [base(), class_("C", [ctor([], [return_(obj(prop("k", num(1))))])], super_=I("A")), _p(member(new(C), "k"))],
+        "derived-return-prim": [base(), class_("C", [ctor([], [expr(super_call(num(1))), return_(num(5))])], super_=I("A")), _guard([expr(new(C))])],
+        "default-ctor": [base(), class_("C", [cmethod("m", [], [return_(binary("+", S("C.m>"), call(super_member("m"))))])], super_=I("A")),
+                         let("c", new(C, num(4))), _p(call(member(I("c"), "m")), member(I("c"), "x"), binary("instanceof", I("c"), I("A")))],
+        "static-inherit": [base(), class_("C", [cmethod("s", [], [return_(binary("+", S("C.s>"), call(super_member("s"))))], static=True)], super_=I("A")), _p(call(member(C, "s")))],
+        "call-without-new": [base(), _guard([expr(call(I("A"), num(1)))])],
+        "class-tdz": [_guard([expr(new(C))]), class_("C", []), _p(unary("typeof", C))],
+        "class-inner-binding": [class_("C", [cmethod("m", [], [_guard([expr(assign(C, num(1)))]), return_(unary("typeof", C))])]), let("D", C), expr(assign(C, num(0))), _p(call(member(new(I("D")), "m")), C)],
+        "extends-null": [class_("C", [], super_=null()), _guard([expr(new(C))]), _p(unary("typeof", C))],
+        "extends-nonctor": [_guard([class_("C", [], super_=num(5))]), _guard([class_("D", [], super_=arrow([], body=[]))])],
+        "accessors": [class_("C", [cmethod("v", [], [_p(S("get")), return_(num(1))], kind="get"), cmethod("v", params("z"), [_p(S("set"), I("z"))], kind="set"),
+                                   cmethod("w", [], [return_(num(2))], kind="get", static=True)]), let("c", new(C)), expr(assign(member(I("c"), "v"), num(9), "+=")), _p(member(C, "w")),
+                      forin("const", "k", I("c"), block(_p(S("enum"), I("k"))))],
+        "computed-order": [class_("C", [N("cmember", kind="method", computed=True, k=call(I("t"), S("k1")), v=method([], [])),
+                                        N("cmember", kind="field", computed=True, k=call(I("t"), S("k2")), v=call(I("t"), S("v2"))),
+                                        N("cmember", kind="method", static=True, computed=True, k=call(I("t"), S("k3")), v=method([], []))]), _p(S("def")), expr(new(C))],
+        "generator-method": [class_("C", [cmethod("g", [], [expr(yield_(num(1))), expr(yield_(member(this(), "q")))], gen=True), cfield("q", num(2))]), _p(array(spread(call(member(new(C), "g")))))],
+        "super-in-arrow": [base(), class_("C", [ctor([], [let("f", arrow([], body=[expr(super_call(num(3)))])), expr(call(I("f"))), _p(member(this(), "x"))]),
+                                               cmethod("m", [], [return_(call(arrow([], ebody=call(super_member("m")))))])], super_=I("A")), _p(call(member(new(C), "m")))],
+        "new-target": [function("F", [], [_p(binary("===", N("newtarget"), I("F")), unary("typeof", N("newtarget")))]), expr(new(I("F"))), expr(call(I("F")))],
+        "proto-chain": [base(), class_("C", [], super_=I("A")), let("c", new(C, num(1))),
+                        _p(binary("instanceof", I("c"), C), binary("instanceof", I("c"), I("A")), binary("instanceof", obj(), C),
+                           binary("===", member(I("c"), "constructor"), C), binary("in", S("m"), I("c")), binary("in", S("x"), I("c")))],
+    }
+    t = function("t", params("x"), [_p(S("ev"), I("x")), return_(I("x"))])
+    for nm, body in cases.items():
+        for strict in (False, True):
+            out.append(("class/%s/%s" % (nm, "strict" if strict else "sloppy"), program([t] + copy.deepcopy(body), strict=strict)))
+    return out
+
+
+GRID_FAMILIES = {"exits": grid_exits, "genexits": grid_generator_exits, "bindings": grid_bindings, "operators": grid_operators,
+                 "destructuring": grid_destructuring, "completion": grid_completion, "classes": grid_classes}
+
+
+def grids(tier="quick", families=None):
+    out = []
+    for nm, f in GRID_FAMILIES.items():
+        if families and nm not in families:
+            continue
+        out += f(tier)
+    return out
 
 
 if __name__ == "__main__":
